@@ -219,7 +219,10 @@ struct Combo {
 
 fn main() {
     vmc::run("C12", "fault_enumeration", |ctx| {
-        let docs = vnd::corpus(ctx.thorough());
+        let n_corpus = vnd::corpus(ctx.thorough()).len();
+        let mut docs = vnd::corpus(ctx.thorough());
+        // hand-built legal layouts that noodles does not write itself, and bgzipped indexed text (see vnd::extra)
+        docs.extend(vnd::extra(ctx.thorough()));
         let all_caps: Vec<usize> = vec![1, 2, 3, 5, 8, 17, 64, 8192, 65536];
         let quick_caps: Vec<usize> = vec![1, 2, 3, 5, 8, 17, 64, 8192, 65536];
         let caps = ctx.by_tier(quick_caps, all_caps);
@@ -237,7 +240,7 @@ fn main() {
                 let log = vnd::read_log(d.format, &d.bytes[..], &Opts::for_doc(d).api(api));
                 let last = log.last().cloned().unwrap_or_default();
                 let crai_eager = d.format == Format::Crai && api == Api::Eager;
-                if !vnd::is_end_eof(&last) && !crai_eager {
+                if !vnd::is_end_eof(&last) && !crai_eager && i < n_corpus {
                     vmc::machinery(format!("corpus document {} does not read cleanly from a plain slice with {api:?}: {last}", d.name));
                 }
                 spec.insert((i, api), Arc::new(log));
@@ -279,6 +282,41 @@ fn main() {
             "read_calls_per_run_max": combos.iter().map(|c| c.sizes.len()).max(),
             "documents": docs.len(),
         }));
+
+        // ---- layouts: a hand-built legal layout reads (from the plain slice) like the noodles-written document
+        //      with the same content (virtual positions aside)
+        {
+            let (docs, spec) = (&docs, &spec);
+            let hand: Vec<usize> = (n_corpus..docs.len()).collect();
+            let hand = &hand;
+            ctx.harness(Config::new("layouts", 0), move |ch: &Chooser| -> Outcome {
+                let di = *ch.pick_free("doc", hand);
+                let d = &docs[di];
+                let api = *ch.pick_free("api", Api::all_for(d.format));
+                ch.desc(|| format!("doc={} api={api:?} equivalent-of={:?}", d.name, d.equiv_of));
+                let got = &spec[&(di, api)];
+                ch.obs_hash((di, api, got.len()));
+                let strip = |l: &String| -> String {
+                    match l.rfind(" @") {
+                        Some(p) if l[p + 2..].bytes().all(|c| c.is_ascii_digit() || c == b':') => l[..p].to_string(),
+                        _ => l.clone(),
+                    }
+                };
+                let last = got.last().cloned().unwrap_or_default();
+                if !vnd::is_end_eof(&last) && !(d.format == Format::Crai && api == Api::Eager) {
+                    return Err(violation(d, api, "plain-slice", "plain-slice", "none", &[], ("legal-layout-not-read".into(), "end: EOF".into(), short(&last))));
+                }
+                if let Some(base) = d.equiv_of.as_ref().and_then(|n| docs.iter().position(|x| &x.name == n)) {
+                    let want: Vec<String> = spec[&(base, api)].iter().map(strip).collect();
+                    let have: Vec<String> = got.iter().map(strip).collect();
+                    if let Some(diff) = compare(&want, &have) {
+                        let (sym, e, o) = diff;
+                        return Err(violation(d, api, "plain-slice", "plain-slice", "none", &[], (format!("legal-layout-{sym}"), e, o)));
+                    }
+                }
+                Ok(())
+            });
+        }
 
         // ---- choose: ReadMode::Choose, deviation bounded
         let bound = ctx.by_tier(1, 2);
